@@ -420,6 +420,26 @@ def desc_dvol_array(d):
     return np.broadcast_to(np.asarray(v, dtype=np.float64), desc_shape(d)).copy()
 
 
+def canon(d):
+    """canonical (hashable) form of a descriptor: equal iff the descriptions are equal"""
+    t = d["t"]
+    if t == "RG":
+        return ("RG", tuple(d["shape"]), tuple(rg_distances(d)), bool(d["harmonic"]))
+    if t == "LM":
+        return ("LM", d["lmax"], d["lmax"] if d["mmax"] is None else d["mmax"])
+    if t == "GL":
+        return ("GL", d["nlat"], d["nlon"] if d["nlon"] is not None else 2 * d["nlat"] - 1)
+    if t == "HP":
+        return ("HP", d["nside"])
+    if t == "U":
+        return ("U", tuple(d["shape"]))
+    if t == "PS":
+        return ("PS", canon(d["partner"]), None if d["bb"] is None else tuple(d["bb"]))
+    if t == "DOF":
+        return ("DOF", tuple(float(x) for x in desc_dvol(d)))
+    raise ValueError(t)
+
+
 def build(d, route=0):
     """NIFTy domain for a descriptor.  ``route`` selects an equivalent way of
     writing the same description (container types, scalar vs tuple, defaults)."""
